@@ -458,7 +458,7 @@ func runC07(r *Run) {
 				evt++
 				call := evt
 				op := in.Op
-				if c == cancelClient && i == cancelIdx && (in.Kind == "upload" && op.Proto != "resumable" || in.Kind == "patch" || in.Kind == "delete") {
+				if c == cancelClient && i == cancelIdx && (in.Kind == "upload" && op.Proto != "resumable" || in.Kind == "patch" || in.Kind == "delete" || in.Kind == "copy" || in.Kind == "compose" || in.Kind == "append" || in.Kind == "copyout") {
 					in.Cancel = true
 				}
 				var resp gResp
